@@ -186,7 +186,10 @@ package endorse
 
 
 // releasePath is a deterministic function of the context (the VersionControl implementation's path mapping).
-//@ func releasePath trusted pure
+//@ func releasePath pure
+// C13 (a manifest entry names the file that was written): the release path is the backend's mapping of OutDir joined
+// with the candidate name exactly as given - directory part included.
+//@   atcall Join requires[C13] len(p0) == 2 && p0[1] == basename
 //@   assigns nothing
 
 // Merge rule (C13): the only entry ever dropped from the manifest is the one that carries the *new* digest
